@@ -1175,5 +1175,6 @@ func TestVerif_C14(t *testing.T) {
 		run.Inconclusive("too few clean logins")
 	}
 	run.Extra("cases", len(cases))
+	run.RaceCheck("")
 	run.Finish(int64(len(cases))/2, run.Env.Pick(120, 300))
 }
